@@ -13,9 +13,11 @@ import (
 	"fmt"
 	"math/big"
 	"os"
+	"reflect"
 	"sort"
 	"strings"
 	"sync"
+	"sync/atomic"
 	"time"
 
 	"github.com/artela-network/artela-evm/vm"
@@ -42,6 +44,9 @@ type inBeh struct {
 var (
 	inMain  = common.HexToAddress("0x00000000000000000000000000000000000000aa")
 	inOther = common.HexToAddress("0x00000000000000000000000000000000000000bb")
+	// inZ registers two variables of different types at one (slot, offset) and then journals a value there under the zero type id:
+	// nothing is registered under that type, so the frame must halt - every time, whatever the iteration order of the maps involved
+	inZ = common.HexToAddress("0x00000000000000000000000000000000000000bc")
 )
 
 // inMainOf: transactions W and R (context writer) run in a contract whose address is the instance's own, so that a context write
@@ -88,6 +93,7 @@ func inCode(steps int, tx string) []byte {
 			a.MStoreBytes(0x160, []byte("t"))
 			a.PushBytes(jcType[:]).Push(1).Push(0x140).Op(vm.RSVJNAL)
 			a.PushBytes(jcType[:]).Push(1).Op(vm.VRJNAL)
+			a.Push(0).Push(0).Push(0).Push(0).Push(0).PushAddr(inZ).Push(60000).Op(vm.CALL, vm.POP)
 			// register a mapping "m" at slot 7 and three members, journal their values
 			a.MStore32(0xC0, []byte{1})
 			a.MStoreBytes(0xE0, []byte("m"))
@@ -124,6 +130,19 @@ func inCode(steps int, tx string) []byte {
 	}
 	a.Label("fin")
 	a.Push(v).Push(0).Op(vm.MSTORE).Push(32).Push(0).Op(vm.RETURN)
+	return a.Bytes()
+}
+
+func inZCode() []byte {
+	a := evmx.NewAsm()
+	a.MStore32(0x140, []byte{1})
+	a.MStoreBytes(0x160, []byte("a"))
+	a.PushBytes(jcType[:]).Push(5).Push(0x140).Op(vm.RSVJNAL)
+	a.MStoreBytes(0x160, []byte("b"))
+	a.PushBytes(jcPType[:]).Push(5).Push(0x140).Op(vm.RSVJNAL)
+	a.Push(0x33).Push(5).Op(vm.SSTORE)
+	a.Push(0).Push(32).Push(0).Push(5).Op(vm.VVJNAL) // type id 0
+	a.Op(vm.STOP)
 	return a.Bytes()
 }
 
@@ -221,6 +240,7 @@ func inDigest(e *evmx.Env, res evmx.Result, prices []string, main common.Address
 		fmt.Fprintf(&sb, ";s%d=%s", m, renderChanges(c))
 	}
 	fmt.Fprintf(&sb, ";str0=%s;str1=%s", renderChanges(sc.Variable(main, "s")), renderChanges(sc.Variable(main, "t")))
+	fmt.Fprintf(&sb, ";za=%s;zb=%s", renderChanges(sc.Variable(inZ, "a")), renderChanges(sc.Variable(inZ, "b")))
 	fmt.Fprintf(&sb, ";bal=%s/%s", renderChanges(sc.Balance(main)), renderChanges(sc.Balance(inOther)))
 	h := sha256.Sum256([]byte(sb.String()))
 	return hex.EncodeToString(h[:8]), sb.String()
@@ -246,15 +266,35 @@ func newInstance(want int, tx string, steps int, free bool, idx int) *inInstance
 }
 
 // construct builds the EVM (NewEVM -> NewEVMInterpreter: pick / copy / enable)
+func inWantEips(mask int) []int {
+	l := []int{}
+	if mask != 0 {
+		l = append(l, 9999)
+	}
+	if mask&1 != 0 {
+		l = append(l, 3855)
+	}
+	if mask&2 != 0 {
+		l = append(l, 1884)
+	}
+	return l[:len(l):len(l)]
+}
+
+var (
+	inSharedEips    = [4][]int{inWantEips(0), inWantEips(1), inWantEips(2), inWantEips(3)}
+	inEipsClobbered atomic.Value
+)
+
 func (in *inInstance) construct() {
-	var eips []int
-	if in.want&1 != 0 {
-		eips = append(eips, 3855)
+	// every instance with the same mask is built from the same Config.ExtraEips slice, as a host that keeps one vm.Config does;
+	// the list starts with an EIP number the VM does not know (skipped at construction), so that the list the interpreter keeps
+	// differs from the list it was given
+	eips := inSharedEips[in.want&3]
+	in.env = evmx.NewEnvWithTracer(evmx.EnvOpts{Fork: inFork(in.tx), ExtraEips: eips, ShareEips: true}, in.tr)
+	if w := inWantEips(in.want & 3); !reflect.DeepEqual(eips, w) {
+		inEipsClobbered.Store(fmt.Sprintf("constructing an EVM (extra EIPs mask %d) rewrote the caller's Config.ExtraEips: %v, given %v", in.want&3, eips, w))
+		copy(eips, w)
 	}
-	if in.want&2 != 0 {
-		eips = append(eips, 1884)
-	}
-	in.env = evmx.NewEnvWithTracer(evmx.EnvOpts{Fork: inFork(in.tx), ExtraEips: eips}, in.tr)
 	in.env.OnTransfer = in.gate.atTransfer
 	st := in.env.State
 	st.SetCode(in.main, inCode(in.steps, in.tx))
@@ -262,6 +302,8 @@ func (in *inInstance) construct() {
 	st.SetBalance(in.main, big.NewInt(10))
 	st.SetCode(inOther, []byte{byte(vm.STOP)})
 	st.SetNonce(inOther, 1)
+	st.SetCode(inZ, inZCode())
+	st.SetNonce(inZ, 1)
 	in.env.EVM.IsExecuteJP = false
 }
 
@@ -579,6 +621,9 @@ func instancesCmd(args []string) int {
 				add([]inMismatch{{Comp: "in.isolation", Detail: fmt.Sprintf("free-running instance %s differs from its solo outcome:\n  %s\n  %s", cfg[i], res[i].Detail, solo[cfg[i]].Detail)}}, `{"free":true}`)
 			}
 		}
+	}
+	if c, _ := inEipsClobbered.Load().(string); c != "" {
+		add([]inMismatch{{Comp: "in.isolation", Detail: c + " (instances built from one vm.Config share that slice)"}}, `{"sharedConfig":true}`)
 	}
 	ks := make([]string, 0, len(rep.ByComp))
 	for k := range rep.ByComp {
